@@ -14,7 +14,153 @@ import (
 	"verifharness/pipx"
 )
 
-func init() { commands["trytrace"] = cmdTryTrace }
+func init() {
+	commands["trytrace"] = cmdTryTrace
+	commands["tryseq"] = cmdTrySeq
+}
+
+type tryProg struct {
+	K, FailAt    int
+	Nested       string
+	Dmask, Fmask int
+}
+
+var tryHandlers = []string{"success", "fail", "finally"}
+var tryHandlerProbe = map[string]string{"success": "s1", "fail": "f1", "finally": "y1"}
+
+func (p tryProg) sets() (defined, hfails, body []string) {
+	defined, hfails, body = []string{}, []string{}, []string{}
+	for i, h := range tryHandlers {
+		if p.Dmask&(1<<uint(i)) != 0 {
+			defined = append(defined, h)
+		}
+		if p.Fmask&(1<<uint(i)) != 0 {
+			hfails = append(hfails, h)
+		}
+	}
+	for c := 1; c <= p.K; c++ {
+		body = append(body, fmt.Sprintf("b%d", c))
+	}
+	return
+}
+
+func (p tryProg) script(name string) string {
+	var script strings.Builder
+	script.WriteString("pip:try --name=" + name + " --silent=false --body=<<EOF\n")
+	for c := 1; c <= p.K; c++ {
+		if c == 1 && p.Nested != "none" {
+			script.WriteString("pip:run --name=n --silent=false --body=\"probe --id=n1\"\n")
+		}
+		script.WriteString(fmt.Sprintf("probe --id=b%d\n", c))
+	}
+	script.WriteString("EOF")
+	defined, _, _ := p.sets()
+	for _, h := range defined {
+		script.WriteString(fmt.Sprintf(" --%s=\"probe --id=%s\"", h, tryHandlerProbe[h]))
+	}
+	script.WriteString("\n")
+	return script.String()
+}
+
+func (p tryProg) configure(wd *pipx.World) {
+	_, hfails, _ := p.sets()
+	for c := 1; c <= 3; c++ {
+		wd.SetProbe(fmt.Sprintf("b%d", c), c == p.FailAt && c <= p.K, time.Duration(c*50)*time.Microsecond)
+	}
+	wd.SetProbe("n1", p.Nested == "fail", 400*time.Microsecond)
+	for _, h := range tryHandlers {
+		wd.SetProbe(tryHandlerProbe[h], false, 0)
+	}
+	for _, h := range hfails {
+		wd.SetProbe(tryHandlerProbe[h], true, 0)
+	}
+}
+
+func (p tryProg) reset(wd *pipx.World) {
+	defined, hfails, body := p.sets()
+	wd.Log.Emit(map[string]interface{}{"ev": "reset", "k": p.K, "body": body, "failat": p.FailAt, "nested": p.Nested, "defined": defined, "hfails": hfails})
+}
+
+// tryseq: TWO try blocks (different names) run one after the other by ONE application through one terminal
+// session; a separator command between them closes the first history (what did the first block leave behind in
+// the surrounding scope?) and opens the second, so that each block is validated by Trace_Try.tla on its own --
+// in particular the second block must behave as if the first had never run.
+func cmdTrySeq(args []string) error {
+	fl := flag.NewFlagSet("tryseq", flag.ExitOnError)
+	out := fl.String("out", "", "ndjson")
+	every := fl.Int("every", 1, "take every n-th second program")
+	offset := fl.Int("offset", 0, "offset")
+	fl.Parse(args)
+	f, err := os.Create(*out)
+	if err != nil {
+		return err
+	}
+	bw := bufio.NewWriterSize(f, 1<<20)
+	firsts := []tryProg{{1, 0, "none", 7, 0}, {1, 1, "none", 7, 0}, {1, 0, "ok", 4, 0}, {2, 2, "none", 6, 0}}
+	var seconds []tryProg
+	for failAt := 0; failAt <= 1; failAt++ {
+		for _, nested := range []string{"none", "ok", "fail"} {
+			for dmask := 0; dmask < 8; dmask++ {
+				for fmask := 0; fmask < 8; fmask++ {
+					if fmask&^dmask == 0 {
+						seconds = append(seconds, tryProg{1, failAt, nested, dmask, fmask})
+					}
+				}
+			}
+		}
+	}
+	executed, idx := 0, 0
+	hung := false
+	for _, a := range firsts {
+		for _, b := range seconds {
+			idx++
+			if idx%*every != *offset%*every || hung {
+				continue
+			}
+			executed++
+			text := a.script("t") + "probe --id=sep\n" + b.script("u")
+			wd, err := pipx.NewWorld(bw, text, []string{"appname", "terminal", "--strict=true", "--silent=true"})
+			if err != nil {
+				return err
+			}
+			a.reset(wd)
+			a.configure(wd)
+			sepSeen := false
+			b := b
+			wd.Intercept = map[string]func(){"sep": func() {
+				sepSeen = true
+				wd.Log.Emit(map[string]interface{}{"ev": "final", "outererr": len(wd.App.Scopes().App().Errors()) > 0})
+				b.reset(wd)
+				b.configure(wd)
+			}}
+			done := make(chan bool, 1)
+			go func() {
+				runErr := wd.Boot.Run()
+				waitErr := wd.App.Scopes().App().Wait()
+				done <- runErr != nil || waitErr != nil
+			}()
+			select {
+			case outerErr := <-done:
+				if !sepSeen {
+					// the first block stopped the script (it must not: none of its handlers fails): reported by its own final
+					wd.Log.Emit(map[string]interface{}{"ev": "final", "outererr": outerErr})
+				} else {
+					wd.Log.Emit(map[string]interface{}{"ev": "final", "outererr": outerErr})
+				}
+			case <-time.After(15 * time.Second):
+				buf := make([]byte, 1<<16)
+				n := runtime.Stack(buf, true)
+				wd.Log.Emit(map[string]interface{}{"ev": "hang", "script": text, "goroutines": string(buf[:n])})
+				hung = true
+			}
+		}
+	}
+	bw.Flush()
+	f.Close()
+	b, _ := json.Marshal(map[string]interface{}{"programs": executed, "hung": hung})
+	fmt.Println(string(b))
+	return nil
+}
 
 // trytrace: every pip:try program in a bound (body length, failing command, nested task,
 // handler subset, failing handlers) executed by a real application through its terminal
